@@ -108,10 +108,10 @@ class NestedParent(WrappingQuery):
     def matcher(self, searcher, context=None):
         bits = searcher._filter_to_comb(self.parents)
         if not bits:
-            return matching.NullMatcher
+            return matching.NullMatcher()
         m = self.child.matcher(searcher, context)
         if not m.is_active():
-            return matching.NullMatcher
+            return matching.NullMatcher()
 
         return self.NestedParentMatcher(bits, m, self.per_parent_limit,
                                         searcher.doc_count_all(),
@@ -268,11 +268,11 @@ class NestedChildren(WrappingQuery):
     def matcher(self, searcher, context=None):
         bits = searcher._filter_to_comb(self.parents)
         if not bits:
-            return matching.NullMatcher
+            return matching.NullMatcher()
 
         m = self.child.matcher(searcher, context)
         if not m.is_active():
-            return matching.NullMatcher
+            return matching.NullMatcher()
 
         return self.NestedChildMatcher(bits, m, searcher.doc_count_all(),
                                        searcher.reader().is_deleted,
